@@ -2,7 +2,7 @@
    and the reassignment loop of the sticky strategy does not terminate on an honest input (with or without the
    repair); plus examples showing that the hypotheses of the validity theorems are satisfiable. *)
 From Coq Require Import List ZArith Bool String Lia.
-From SV Require Import C08.Common C08.Range C08.RoundRobin C08.Sticky C08.Valid C08.ProofsBase.
+From SV Require Import C08.Common C08.Range C08.RoundRobin C08.Sticky C08.Valid C08.ProofsBase C08.ProofsSticky.
 Import ListNotations.
 Open Scope string_scope.
 Open Scope list_scope.
@@ -114,6 +114,15 @@ Proof.
   intros fx fuel. unfold sticky_plan, sticky_plan_full. rewrite w2_prep_eq. unfold w2_prep.
   destruct (w2_out_of_fuel fx fuel) as [s [pf E]]. unfold w2_pr, w2_prep in E. rewrite E.
   unfold sticky_finish, balance_finish. cbn [b_end p_res]. eauto.
+Qed.
+
+Theorem sticky_full_statement_refuted : ~ sticky_full_statement.
+Proof.
+  intro H. destruct (H o_empty w2_members w2_topics (proj1 w2_wf) (proj2 w2_wf)) as [fuel [p [E _]]].
+  - intros mm Hm. repeat (destruct Hm as [<-|Hm]; [discriminate|]). contradiction.
+  - unfold sticky_plan, sticky_plan_full in E. rewrite w2_prep_eq in E. unfold w2_prep in E.
+    destruct (w2_out_of_fuel true fuel) as [s [pf E2]]. unfold w2_pr, w2_prep in E2. rewrite E2 in E.
+    unfold sticky_finish, balance_finish in E. cbn [b_end p_res] in E. discriminate.
 Qed.
 
 (* ---- hypotheses of the validity theorems are satisfiable on non-trivial inputs ---- *)
